@@ -112,6 +112,8 @@ class BuiltinMixin:
             self.ctx.assume(back(term) == value.t)
             self.ctx.assumptions_used.add("int(str(n)) == n (str of int is injective)")
             return StrV(t=term)
+        if isinstance(value, RefV):
+            return StrV(t=z3.Function(f"str_of:{value.desc.cls}", value.t.sort(), StrSort)(value.t))
         if isinstance(value, ObjV):
             fn = self.find_method(value.cls, "__str__")
             if fn is not None:
@@ -385,6 +387,13 @@ class BuiltinMixin:
 
     def b_all(self, args, kwargs, line):
         return self._quantified(args[0], True, line)
+
+    def b_forall_str(self, args, kwargs, line):
+        x = z3.Const(self.ctx.fresh_name("s"), StrSort)
+        value = self.eval_bound(lambda: self.call(args[0], [StrV(t=x)], {}, line), z3.BoolVal(True), x)
+        t = self.truth(value)
+        t = z3.BoolVal(t) if isinstance(t, bool) else t
+        return BoolV(z3.ForAll([x], t))
 
     def b_forall(self, args, kwargs, line):
         return self._bounded_quant(args[0], args[1], True, line)
